@@ -108,6 +108,68 @@ def check_one(con, hooks, inputs, timeout_s):
     return summary, failed, problems
 
 
+class NotAuto(Exception):
+    pass
+
+
+def auto_value(desc, v):
+    """Concrete Python value for a contract parameter description (generic replay of counter-models on functions that
+    have no hand-written builder): scalars, lists, bytes, options, tuples and value records (as attribute namespaces)."""
+    import types
+    if desc in ("int", "bool", "str"):
+        if v is None:
+            raise NotAuto("no model value")
+        return v
+    if isinstance(desc, tuple):
+        k = desc[0]
+        if k == "bytes":
+            return bytes(x & 0xFF for x in (v or []))
+        if k == "list":
+            return [auto_value(desc[1], x) for x in (v or [])]
+        if k == "const":
+            return desc[1]
+        if k == "opt":
+            return None if v is None else auto_value(desc[1], v)
+        if k == "tuple":
+            return tuple(auto_value(d, x) for d, x in zip(desc[1], v))
+        if k == "rec" and isinstance(v, dict):
+            return types.SimpleNamespace(**{f: auto_value(d, v.get(f)) for f, d in desc[2].items()})
+        if k == "drop":
+            return None
+    raise NotAuto(f"no generic builder for {desc!r}")
+
+
+def auto_applicable(con):
+    if con.self_desc is not None or getattr(con, "lemma_src", None) or getattr(con, "abstract", False):
+        return False
+    key = getattr(con, "source_key", None) or con.key.split("#")[0].split("[")[0]
+    if "." in key.split(":")[-1] or key.startswith("pyx:"):
+        return False
+
+    def ok(d):
+        if d in ("int", "bool", "str"):
+            return True
+        if isinstance(d, tuple):
+            if d[0] in ("bytes", "const", "drop"):
+                return True
+            if d[0] in ("list", "opt"):
+                return ok(d[1])
+            if d[0] == "tuple":
+                return all(ok(x) for x in d[1])
+            if d[0] == "rec":
+                return all(ok(x) for x in d[2].values())
+        return False
+    return all(ok(d) for d in con.params.values())
+
+
+def auto_build(con, inputs):
+    key = getattr(con, "source_key", None) or con.key.split("#")[0].split("[")[0]
+    modname, fname = key.split(":")
+    fn = getattr(importlib.import_module(modname), fname)
+    args = {n: auto_value(d, inputs.get(n)) for n, d in con.params.items()}
+    return {"call": fn, "kwargs": dict(args), "env": dict(args)}
+
+
 def main():
     job = json.load(sys.stdin)
     resource.setrlimit(resource.RLIMIT_AS, (6 << 30, 6 << 30))
@@ -125,6 +187,8 @@ def main():
             args = [inputs[p] for p in con.params]
             return {"call": ns[fname], "args": args, "env": dict(inputs)}
         hooks = {"build": build}
+    elif job.get("auto"):
+        hooks = {"build": lambda inputs, con=con: auto_build(con, inputs)}
     else:
         hooks = getattr(mod, "CONCRETE")[job["key"]]
     timeout_s = job.get("timeout_s", 2.0)
